@@ -571,6 +571,10 @@ func filestat(h FileLister, r *Request, pkt requestPacket) responsePacket {
 	if err != nil {
 		return statusFromError(pkt.id(), err)
 	}
+	if c, ok := lister.(io.Closer); ok {
+		// the lister is not kept in a handle, so nothing else will close it.
+		defer c.Close()
+	}
 	finfo := make([]os.FileInfo, 1)
 	n, err := lister.ListAt(finfo, 0)
 	finfo = finfo[:n] // avoid need for nil tests below
